@@ -727,8 +727,14 @@ func c18PlusTls(w *World, r *Report, tlsTypes map[string]bool) {
 				var testVal ssa.Value
 				for v, t := range e.State.Facts {
 					if isTlsTest(v) {
-						tls, known = t, true
-						testVal = v
+						known = true
+						if t {
+							// any TLS-scheme test that holds makes this a TLS path (order of the facts must not matter)
+							tls = true
+							if testVal == nil || v.Pos() < testVal.Pos() {
+								testVal = v
+							}
+						}
 					}
 				}
 				if !known || !tls {
